@@ -634,4 +634,182 @@ theorem segsOk_of_refsOk (row : List Str) (cc : List (Str × Nat)) (segs : List 
       simp only [segsOk, Bool.and_eq_true, lookupCap_isSome]
       exact ⟨⟨h.1.1, h.1.2⟩, ih h.2⟩
 
+/-! ## tokenisation: the csv reader automaton, the writer, the regex line loop -/
+
+theorem runCsv_append (d : Char) (s : RS) (a b : Str) :
+    runCsv d s (a ++ b) = ((runCsv d s a).1 ++ (runCsv d (runCsv d s a).2 b).1, (runCsv d (runCsv d s a).2 b).2) := by
+  induction a generalizing s with
+  | nil => simp [runCsv]
+  | cons c cs ih =>
+    simp only [List.cons_append, runCsv]
+    cases h : rstep d s c with
+    | mk s' o =>
+      cases o with
+      | none => simp only [ih]
+      | some r => simp only [ih, List.cons_append]
+
+/-- characters that are data in an unquoted field -/
+def plainChar (d : Char) (c : Char) : Prop := c ≠ d ∧ c ≠ '"' ∧ c ≠ '\n'
+
+theorem not_needsQuote (d : Char) (f : Str) (h : needsQuote d f = false) : ∀ c ∈ f, plainChar d c := by
+  intro c hc
+  simp only [needsQuote, List.any_eq_false] at h
+  have := h c hc
+  simp only [Bool.or_eq_true, beq_iff_eq, not_or] at this
+  exact ⟨this.1.1, this.1.2, this.2⟩
+
+/-- inside an unquoted field plain characters accumulate -/
+theorem run_inField (d : Char) (f : Str) (h : ∀ c ∈ f, plainChar d c) (fld : Str) (row : List Str) :
+    runCsv d ⟨.inField, fld, row⟩ f = ([], ⟨.inField, fld ++ f, row⟩) := by
+  induction f generalizing fld with
+  | nil => simp [runCsv]
+  | cons c cs ih =>
+    obtain ⟨h1, h2, h3⟩ := h c (by simp)
+    have hs : rstep d ⟨.inField, fld, row⟩ c = (⟨.inField, fld ++ [c], row⟩, none) := by
+      simp [rstep, h1, h3, RS.add]
+    simp only [runCsv, hs]
+    rw [ih (fun x hx => h x (by simp [hx]))]
+    simp
+
+/-- inside a quoted field the escaped text reads back as the text -/
+theorem run_inQuoted (d : Char) (f fld : Str) (row : List Str) :
+    runCsv d ⟨.inQuoted, fld, row⟩ (escapeQuotes f) = ([], ⟨.inQuoted, fld ++ f, row⟩) := by
+  induction f generalizing fld with
+  | nil => simp [runCsv, escapeQuotes]
+  | cons c cs ih =>
+    by_cases hc : c = '"'
+    · subst hc
+      simp only [escapeQuotes, if_true, runCsv, rstep, RS.add]
+      rw [ih]; simp
+    · simp only [escapeQuotes, hc, if_false, runCsv, rstep, RS.add]
+      rw [ih]; simp
+
+/-- the states in which a field may begin: after a delimiter, or at the start of a record -/
+def FieldStart (s : RS) : Prop := s.field = [] ∧ (s.st = .startField ∨ s = RS.init)
+
+/-- the state after the text of a field `f` has been read, `row` being the fields before it -/
+def FieldDone (s : RS) (f : Str) (row : List Str) : Prop :=
+  s.field = f ∧ s.row = row ∧
+    (s.st = .quoteInQuoted ∨ s.st = .inField ∨ (s.st = .startField ∧ f = []) ∨ (s = RS.init ∧ f = [] ∧ row = []))
+
+theorem run_writeField (d : Char) (f : Str) (s : RS) (hs : FieldStart s) :
+    ∃ s', runCsv d s (writeField d f) = ([], s') ∧ FieldDone s' f s.row ∧ (s' = RS.init → s = RS.init ∧ f = []) := by
+  obtain ⟨hf, hst⟩ := hs
+  obtain ⟨st, fld, row⟩ := s
+  simp only at hf; subst hf
+  have hsf : ∀ c, c ≠ '\n' → rstep d ⟨st, [], row⟩ c = stepStartField d ⟨st, [], row⟩ c := by
+    intro c hc
+    rcases hst with h | h
+    · simp only at h; subst h; rfl
+    · simp only [RS.init, RS.mk.injEq] at h; obtain ⟨h, -, -⟩ := h; subst h; simp [rstep, hc]
+  by_cases hq : needsQuote d f = true
+  · -- quoted
+    refine ⟨⟨.quoteInQuoted, f, row⟩, ?_, ⟨rfl, rfl, Or.inl rfl⟩, by simp [RS.init]⟩
+    simp only [writeField, hq, if_true, runCsv, hsf '"' (by decide), stepStartField]
+    simp only [show ('"' : Char) ≠ '\n' from by decide, if_false]
+    rw [runCsv_append, run_inQuoted]
+    simp [runCsv, rstep]
+  · have hq' : needsQuote d f = false := by simpa using hq
+    have hp := not_needsQuote d f hq'
+    simp only [writeField, hq', Bool.false_eq_true, if_false]
+    cases f with
+    | nil =>
+      refine ⟨⟨st, [], row⟩, by simp [runCsv], ⟨rfl, rfl, ?_⟩, ?_⟩
+      · rcases hst with h | h
+        · exact Or.inr (Or.inr (Or.inl ⟨h, rfl⟩))
+        · simp only [RS.init, RS.mk.injEq] at h
+          obtain ⟨h1, -, h3⟩ := h; subst h1; subst h3
+          exact Or.inr (Or.inr (Or.inr ⟨rfl, rfl, rfl⟩))
+      · intro h; exact ⟨h, rfl⟩
+    | cons c cs =>
+      obtain ⟨h1, h2, h3⟩ := hp c (by simp)
+      refine ⟨⟨.inField, c :: cs, row⟩, ?_, ⟨rfl, rfl, Or.inr (Or.inl rfl)⟩, by simp [RS.init]⟩
+      simp only [runCsv, hsf c h3, stepStartField, h3, h2, h1, if_false, RS.add, List.nil_append]
+      rw [run_inField d cs (fun x hx => hp x (by simp [hx]))]
+      simp
+
+theorem step_delim_done (d : Char) (hd1 : d ≠ '"') (hd2 : d ≠ '\n') (s : RS) (f : Str) (row : List Str)
+    (h : FieldDone s f row) : rstep d s d = (⟨.startField, [], row ++ [f]⟩, none) := by
+  obtain ⟨st, fld, rw'⟩ := s
+  obtain ⟨h1, h2, h3⟩ := h
+  simp only at h1 h2; subst h1; subst h2
+  rcases h3 with h | h | ⟨h, hf⟩ | ⟨h, hf, hr⟩
+  · simp only at h; subst h; simp [rstep, hd1, RS.save]
+  · simp only at h; subst h; simp [rstep, hd2, RS.save]
+  · simp only at h; subst h; simp [rstep, stepStartField, hd1, hd2, RS.save]
+  · simp only [RS.init, RS.mk.injEq] at h; obtain ⟨h, -, -⟩ := h; subst h
+    simp [rstep, stepStartField, hd1, hd2, RS.save]
+
+theorem step_newline_done (d : Char) (hd2 : d ≠ '\n') (s : RS) (f : Str) (row : List Str)
+    (h : FieldDone s f row) (hn : s ≠ RS.init) : rstep d s '\n' = (RS.init, some (row ++ [f])) := by
+  obtain ⟨st, fld, rw'⟩ := s
+  obtain ⟨h1, h2, h3⟩ := h
+  simp only at h1 h2; subst h1; subst h2
+  have hd2' : ('\n' : Char) ≠ d := fun e => hd2 e.symm
+  rcases h3 with h | h | ⟨h, hf⟩ | ⟨h, hf, hr⟩
+  · simp only at h; subst h; simp [rstep, hd2', RS.emit]
+  · simp only at h; subst h; simp [rstep, RS.emit]
+  · simp only at h; subst h; simp [rstep, stepStartField, RS.emit]
+  · exact absurd h hn
+
+/-- a written record (other than the lone empty field) is read back as itself, continuing the fields `s.row` -/
+theorem run_writeFields (d : Char) (hd1 : d ≠ '"') (hd2 : d ≠ '\n') (fs : List Str) (hne : fs ≠ []) (s : RS)
+    (hs : FieldStart s) (hx : ¬ (s = RS.init ∧ fs = [[]])) :
+    runCsv d s (joinFields d (fs.map (writeField d)) ++ ['\n']) = ([s.row ++ fs], RS.init) := by
+  induction fs generalizing s with
+  | nil => exact absurd rfl hne
+  | cons f rest ih =>
+    obtain ⟨s', hr, hdone, hinit⟩ := run_writeField d f s hs
+    cases rest with
+    | nil =>
+      simp only [List.map_cons, List.map_nil, joinFields]
+      rw [runCsv_append, hr]
+      have hn : s' ≠ RS.init := by
+        intro e; obtain ⟨e1, e2⟩ := hinit e; exact hx ⟨e1, by rw [e2]⟩
+      simp [runCsv, step_newline_done d hd2 s' f s.row hdone hn]
+    | cons g rest' =>
+      simp only [List.map_cons, joinFields]
+      rw [List.append_assoc, runCsv_append, hr]
+      simp only [List.cons_append, runCsv, step_delim_done d hd1 hd2 s' f s.row hdone, List.nil_append]
+      have := ih (by simp) ⟨.startField, [], s.row ++ [f]⟩ ⟨rfl, Or.inl rfl⟩ (by simp [RS.init])
+      simp only [List.map_cons] at this
+      rw [this]; simp
+
+theorem run_writeRow (d : Char) (hd1 : d ≠ '"') (hd2 : d ≠ '\n') (row : List Str) :
+    runCsv d RS.init (writeRow d row) = ([row], RS.init) := by
+  by_cases h1 : row = [[]]
+  · subst h1
+    have hd2' : ('\n' : Char) ≠ d := fun e => hd2 e.symm
+    simp [writeRow, runCsv, rstep, stepStartField, RS.init, RS.emit, hd2']
+  · by_cases h0 : row = []
+    · subst h0; simp [writeRow, joinFields, runCsv, rstep, RS.init]
+    · have hw : writeRow d row = joinFields d (row.map (writeField d)) ++ ['\n'] := by
+        unfold writeRow; split
+        · exact absurd rfl h1
+        · rfl
+      rw [hw, run_writeFields d hd1 hd2 row h0 RS.init ⟨rfl, Or.inr rfl⟩ (fun h => h1 h.2)]
+      simp [RS.init]
+
+theorem run_writeCsv (d : Char) (hd1 : d ≠ '"') (hd2 : d ≠ '\n') (rows : List (List Str)) :
+    runCsv d RS.init (writeCsv d rows) = (rows, RS.init) := by
+  induction rows with
+  | nil => simp [writeCsv, runCsv]
+  | cons r rs ih =>
+    have : writeCsv d (r :: rs) = writeRow d r ++ writeCsv d rs := by simp [writeCsv]
+    rw [this, runCsv_append, run_writeRow d hd1 hd2 r, ih]
+    simp
+
+/-- the index loop of the `regex:` branch, started at line number `i` -/
+theorem regexLoop_succ (m : Str → Option (List Str)) (h : Bool) (i : Nat) (ls : List Str) :
+    regexLoop m h (i + 1) ls = ls.filterMap (lineRow m) := by
+  induction ls generalizing i with
+  | nil => simp [regexLoop]
+  | cons l ls ih =>
+    simp only [regexLoop, List.filterMap_cons, lineRow, ih]
+    by_cases he : (strip l).isEmpty = true
+    · simp [he]
+    · simp only [he, Bool.false_eq_true, if_false]
+      cases m (strip l) <;> simp
+
+
 end TallyVerif.Csv
